@@ -369,6 +369,9 @@ func TestRace(t *testing.T) {
 		cases = append(cases, RcCase{Strategy: strategyNames[i%5], Breaker: g.Bool(), Limiter: g.Bool(), Active: g.Bool(), Passive: g.Bool(), Pool: g.Bool(),
 			Goroutines: []int{8, 16, 32, 64}[g.Intn(4)], Millis: ms, Seed: g.U64() % 100000})
 	}
+	// long enough for the breaker to go through open -> half-open -> closed / open again while metrics are being read
+	cases = append(cases, RcCase{Strategy: "round_robin", Breaker: true, Goroutines: 16, Millis: 1500, Seed: 4242},
+		RcCase{Strategy: "least_connections", Breaker: true, Passive: true, Goroutines: 8, Millis: 1300, Seed: 4243})
 	// traffic against a backend that is added and removed without pause, every strategy
 	for i := 0; i < 5; i++ {
 		cases = append(cases, RcCase{Strategy: strategyNames[i], Passive: i%2 == 0, Goroutines: 16, Millis: ms, Seed: uint64(77 + i), Churn: true})
